@@ -1346,10 +1346,11 @@ func shrink(env *vh.Env, h *histRes, v *verdict, budget int) (*histRes, *verdict
 		return h, v // not reproducible in isolation (should not happen: histories are deterministic)
 	}
 	n := 2
-	for len(cur) >= 2 && budget > 0 {
+	deadline := time.Now().Add(20 * time.Second) // candidates that hang cost a watchdog period each
+	for len(cur) >= 2 && budget > 0 && time.Now().Before(deadline) {
 		chunk := (len(cur) + n - 1) / n
 		reduced := false
-		for i := 0; i < len(cur) && budget > 0; i += chunk {
+		for i := 0; i < len(cur) && budget > 0 && time.Now().Before(deadline); i += chunk {
 			j := i + chunk
 			if j > len(cur) {
 				j = len(cur)
